@@ -708,22 +708,25 @@ func (i *AgentIPC) filterMembers(members []serf.Member, tags map[string]string,
 
 	result := make([]serf.Member, 0, len(members))
 
-	// Pre-compile all the regular expressions
+	// Pre-compile all the regular expressions. The pattern is wrapped in a
+	// non-capturing group so that the anchors apply to the whole pattern
+	// and not just to its first and last alternative ("a|b" must not match
+	// "ax").
 	tagsRe := make(map[string]*regexp.Regexp)
 	for tag, expr := range tags {
-		re, err := regexp.Compile(fmt.Sprintf("^%s$", expr))
+		re, err := regexp.Compile(fmt.Sprintf("^(?:%s)$", expr))
 		if err != nil {
 			return nil, fmt.Errorf("Failed to compile regex: %v", err)
 		}
 		tagsRe[tag] = re
 	}
 
-	statusRe, err := regexp.Compile(fmt.Sprintf("^%s$", status))
+	statusRe, err := regexp.Compile(fmt.Sprintf("^(?:%s)$", status))
 	if err != nil {
 		return nil, fmt.Errorf("Failed to compile regex: %v", err)
 	}
 
-	nameRe, err := regexp.Compile(fmt.Sprintf("^%s$", name))
+	nameRe, err := regexp.Compile(fmt.Sprintf("^(?:%s)$", name))
 	if err != nil {
 		return nil, fmt.Errorf("Failed to compile regex: %v", err)
 	}
